@@ -125,13 +125,19 @@ def build_case(rng, root):
                 name = '%s%s%d' % (sub, rng.choice(('inc', 'mod_', 'T', 'cart.p8.v', 'tools.lua.x', 'a.p8.png.b')), inc_i)
                 if '.p8' in name or '.lua' in name:
                     feats.add('name_with_embedded_extension')
-                tabs = rng.choice((0, 0, 1, 3)) if kind != 'lua' else 0
+                tabs = rng.choice((0, 0, 1, 3, 11, 16)) if kind != 'lua' else 0
                 fin = rng.random() < 0.6
                 code = make_code(rng, tabs, fin, nested=rng.random() < 0.3)
+                if kind == 'lua' and rng.random() < 0.35:
+                    # a .lua file is taken as it is, line by line: bytes above 127 (P8SCII glyphs, or the UTF-8 text of an editor) included
+                    code = rng.choice((b'-- cr\xc3\xa9dits \xe2\x9c\x93\n', b'-- \xff\x80\x8e raw glyphs\n', b's="\x97\xc3"\n')) + code
+                    feats.add('lua_target_with_high_bytes')
             sel = None
             if kind != 'lua' and rng.random() < 0.6:
-                sel = rng.randint(0, tabs + 1)
+                sel = rng.randint(0, tabs + 1) if tabs < 10 or rng.random() < 0.3 else rng.randint(10, tabs + 1)
                 feats.add('tab_selector_%s' % ('beyond' if sel > tabs else 'last' if sel == tabs else 'inner'))
+                if sel >= 10:
+                    feats.add('tab_selector_two_digits')
             ext = {'lua': '.lua', 'p8': '.p8', 'png': '.p8.png'}[kind]
             path = os.path.join(cartdir, name + ext)
             os.makedirs(os.path.dirname(path), exist_ok=True)
@@ -236,6 +242,9 @@ def run_case(ctx, rng, root):
             'via_symlink': 'cart_inside_carts_folder' not in feats and rng.random() < 0.15}
     if case['via_symlink']:
         feats.add('cart_opened_through_symlinked_directory')
+    else:
+        case['open_as'] = rng.choice(('absolute', 'absolute', 'bare_name_in_cwd', 'dot_slash_in_cwd', 'relative_from_parent'))
+        feats.add('cart_opened_as_' + case['open_as'])
     ctx.case((code_section, tuple(desc), tuple(exp)), nontrivial=bool(desc))
     for f in feats:
         ctx.feature(f)
@@ -254,6 +263,18 @@ def judge(ctx, cart, case):
         cart = os.path.join(link, os.path.basename(cart))
     old_home = os.environ.get('HOME')
     os.environ['HOME'] = os.path.join(root_dir, 'home')
+    old_cwd = os.getcwd()
+    open_as = case.get('open_as', 'absolute')
+    if open_as == 'bare_name_in_cwd':
+        os.chdir(os.path.dirname(cart))
+        cart = os.path.basename(cart)
+    elif open_as == 'dot_slash_in_cwd':
+        os.chdir(os.path.dirname(cart))
+        cart = './' + os.path.basename(cart)
+    elif open_as == 'relative_from_parent':
+        parent = os.path.dirname(os.path.dirname(cart))
+        os.chdir(parent)
+        cart = os.path.relpath(cart, parent)
     try:
         try:
             g = p8file.from_file(cart)
@@ -262,6 +283,7 @@ def judge(ctx, cart, case):
         except Exception as e:
             err = e
     finally:
+        os.chdir(old_cwd)
         if old_home is None:
             os.environ.pop('HOME', None)
         else:
@@ -316,7 +338,8 @@ def gates(m, tier):
     for k in ('target_lua', 'target_p8', 'target_png', 'target_in_subdir', 'target_no_final_newline', 'tab_selector_inner', 'tab_selector_last',
               'tab_selector_beyond', 'include_first_line', 'include_last_line', 'adjacent_includes', 'several_includes', 'nested_include_literal',
               'directive_whitespace_variant', 'missing_target', 'png_raw', 'png_compressed', 'includes_0', 'same_target_twice', 'cart_inside_carts_folder', 'name_with_embedded_extension', 'include_inside_block_comment',
-              'cart_opened_through_symlinked_directory'):
+              'cart_opened_through_symlinked_directory', 'lua_target_with_high_bytes', 'tab_selector_two_digits', 'cart_opened_as_bare_name_in_cwd',
+              'cart_opened_as_dot_slash_in_cwd', 'cart_opened_as_relative_from_parent'):
         if f.get(k, 0) < 5:
             missed.append('%s seen %d times' % (k, f.get(k, 0)))
     if mon.get('splices_compared', 0) < 200:
